@@ -335,6 +335,8 @@ impl WalWriter {
                 format!("Failed to write entry size: {e}").into(),
             ))
         })?;
+#[cfg(feature = "verif-hooks")]
+        crate::verif_hooks::crash_point("wal:size-written", &self.path);
 
         // Write entry data
         self.file.write_all(&serialized).map_err(|e| {
@@ -342,6 +344,8 @@ impl WalWriter {
                 format!("Failed to write WAL entry: {e}").into(),
             ))
         })?;
+#[cfg(feature = "verif-hooks")]
+        crate::verif_hooks::crash_point("wal:payload-written", &self.path);
 
         self.current_size += 4 + serialized.len() as u64;
         self.entry_count += 1;
@@ -398,6 +402,10 @@ impl WalWriter {
 
     /// Check if rotation needed
     fn needs_rotation(&self) -> bool {
+#[cfg(feature = "verif-hooks")]
+        if let Some(n) = crate::verif_hooks::wal_rotation_override() {
+            return self.entry_count as u64 >= n;
+        }
         self.current_size >= MAX_WAL_SIZE || self.entry_count >= MAX_WAL_ENTRIES
     }
 
@@ -409,6 +417,8 @@ impl WalWriter {
                 format!("Failed to sync WAL: {e}").into(),
             ))
         })?;
+#[cfg(feature = "verif-hooks")]
+        crate::verif_hooks::crash_point("rotate:synced", &self.path);
 
         // Rename to timestamped file
         let timestamp = current_timestamp();
@@ -420,6 +430,8 @@ impl WalWriter {
                 format!("Failed to rotate WAL: {e}").into(),
             ))
         })?;
+#[cfg(feature = "verif-hooks")]
+        crate::verif_hooks::crash_point("rotate:renamed", &self.path);
 
         // Create new WAL file
         self.file = OpenOptions::new()
@@ -431,6 +443,8 @@ impl WalWriter {
                     format!("Failed to create new WAL: {e}").into(),
                 ))
             })?;
+#[cfg(feature = "verif-hooks")]
+        crate::verif_hooks::crash_point("rotate:reopened", &self.path);
 
         self.current_size = 0;
         self.entry_count = 0;
@@ -764,6 +778,8 @@ impl<T: Serialize + for<'de> Deserialize<'de> + Clone + PartialEq + Send + Sync 
                         format!("Failed to create snapshot file: {e}").into(),
                     ))
                 })?;
+#[cfg(feature = "verif-hooks")]
+            crate::verif_hooks::crash_point("checkpoint:tmp-created", &temp_path);
 
             // Write header
             let header_data = postcard::to_stdvec(&header).map_err(|e| {
@@ -774,9 +790,13 @@ impl<T: Serialize + for<'de> Deserialize<'de> + Clone + PartialEq + Send + Sync 
             let header_size = (header_data.len() as u32).to_le_bytes();
             file.write_all(&header_size)?;
             file.write_all(&header_data)?;
+#[cfg(feature = "verif-hooks")]
+            crate::verif_hooks::crash_point("checkpoint:header-written", &temp_path);
 
             // Write snapshot data
             file.write_all(&snapshot_data)?;
+#[cfg(feature = "verif-hooks")]
+            crate::verif_hooks::crash_point("checkpoint:payload-written", &temp_path);
 
             file.sync_all().map_err(|e| {
                 P2PError::Storage(StorageError::Database(
@@ -784,6 +804,8 @@ impl<T: Serialize + for<'de> Deserialize<'de> + Clone + PartialEq + Send + Sync 
                 ))
             })?;
         }
+#[cfg(feature = "verif-hooks")]
+        crate::verif_hooks::crash_point("checkpoint:tmp-synced", &temp_path);
 
         // Atomic rename
         std::fs::rename(&temp_path, &snapshot_path).map_err(|e| {
@@ -791,6 +813,8 @@ impl<T: Serialize + for<'de> Deserialize<'de> + Clone + PartialEq + Send + Sync 
                 format!("Failed to rename snapshot: {e}").into(),
             ))
         })?;
+#[cfg(feature = "verif-hooks")]
+        crate::verif_hooks::crash_point("checkpoint:renamed", &snapshot_path);
 
         // Clean up old WAL files
         self.cleanup_old_wal_files(last_transaction_id).await?;
@@ -1248,6 +1272,8 @@ impl<T: Serialize + for<'de> Deserialize<'de> + Clone + PartialEq + Send + Sync 
                         format!("Failed to remove old WAL: {e}").into(),
                     ))
                 })?;
+#[cfg(feature = "verif-hooks")]
+                crate::verif_hooks::crash_point("checkpoint:wal-deleted", &wal_path);
             }
         }
 
@@ -1305,6 +1331,8 @@ impl<T: Serialize + for<'de> Deserialize<'de> + Clone + PartialEq + Send + Sync 
                         format!("Failed to remove old snapshot: {e}").into(),
                     ))
                 })?;
+#[cfg(feature = "verif-hooks")]
+                crate::verif_hooks::crash_point("checkpoint:snapshot-deleted", snapshot_path);
             }
         }
 
